@@ -124,9 +124,9 @@ PROPS = {
         "assumptions": COMMON_ASSUME + STR_STUBS[:2] + STR_STUBS[3:6],
     },
     "C10": {
-        "groups": [{"name": "diode", "tags": "verif", "run": "^VH_C10_((waiter|poller)_(1x2|2x1)_s[12]_(fresh|steady)_(close|quiesce)|stuck_writer_.*)$", "flags": {"harness-timeout": 200, "max-paths": 150000, "witnesses": 1},
-                    "quick": {"preempt": 2, "run": "^VH_C10_((poller_(1x2|2x1|1x3)_s[12]_fresh|waiter_1x2_s[12]_fresh|poller_1x2_s[12]_steady)_(close|quiesce)|waiter_2x1_s[12]_fresh_quiesce|stuck_writer_poller)$"}, "thorough": {"preempt": 3, "harness-timeout": 3000, "max-paths": 5000000}}],
-        "level": "model_checking", "msg_filter": "^C10", "engine_only_kinds": ["assert", "deadlock", "panic"], "witness_replays": {"quick": 1, "thorough": 1},
+        "groups": [{"name": "diode", "tags": "verif", "run": "^VH_C10_((waiter|poller)_(1x2|2x1)_s[12]_(fresh|steady)_(close|quiesce)|stuck_writer_.*|bigbuf_.*)$", "flags": {"harness-timeout": 200, "max-paths": 150000, "witnesses": 1},
+                    "quick": {"preempt": 2, "run": "^VH_C10_((poller_(1x2|2x1|1x3)_s[12]_fresh|waiter_1x2_s[12]_fresh|poller_1x2_s[12]_steady)_(close|quiesce)|waiter_2x1_s[12]_fresh_quiesce|stuck_writer_poller|bigbuf_(poller|waiter))$"}, "thorough": {"preempt": 3, "harness-timeout": 3000, "max-paths": 5000000}}],
+        "level": "model_checking", "msg_filter": "^C10", "harness_msg_filter": {"^VH_C10_(stuck_writer|bigbuf)": "."}, "engine_only_kinds": ["assert", "deadlock", "panic"], "witness_replays": {"quick": 1, "thorough": 1},
         "bounds": {"quick": "real diode.Writer in waiter and poller mode; (producers x writes) in {1x2, 2x1} x ring size {1,2} x start {fresh = as NewManyToOne leaves it (first lap), steady = arbitrary symbolic position >= size and < 2^62}; both phases (quiesce / Close); preemption bound 2 with sleep-set reduction; a wrapped writer that blocks forever with 2 producers x 2 writes",
                    "thorough": "adds 1x3, 2x2 and ring size 3, preemption bound 3",
                    "assertions": "every delivered buffer equals the argument of exactly one Write, none twice, per-producer order, alerts positive and their sum <= ring positions claimed, Write returns 2,nil; producers finish although the wrapped writer never returns"},
